@@ -338,3 +338,20 @@ def check_placeholders(ck: Checker, rule, modules, size_range=(1, 2, 3), shift_r
                  'the returned list still contains the internal placeholder string (a label that names no gate): ' + '; '.join(probs[:2]), construct=f'{q} placeholder coverage')
     ck.notes.setdefault('placeholder_functions_skipped', []).extend(skipped)
     return analysed
+
+
+def check_fresh_generated(ck: Checker, rule, modules):
+    """generate_* functions hand out a circuit allocated in that very call: not memoised, not shared."""
+    repo = ck.repo
+    n = 0
+    for m, q, fn in gen_functions(repo, modules):
+        if not q.startswith('generate_'):
+            continue
+        n += 1
+        decos = [norm(d) for d in fn.decorator_list]
+        rets = [r for r in walk_no_nested(fn) if isinstance(r, ast.Return) and r.value is not None]
+        fresh = bool(rets) and all(isinstance(r.value, ast.Name) and is_fresh_circuit_local(fn, r.value.id) for r in rets)
+        ck.check(not decos and fresh, rule, m, fn, f'{q} returns a circuit allocated in this call (no caching, no shared object)',
+                 (f'decorated with {decos}: repeated calls hand out the same mutable Circuit object' if decos else f'returns `{norm(rets[0].value) if rets else None}`, not a local Circuit()'),
+                 construct=f'{q} returns a fresh circuit')
+    return n
